@@ -167,7 +167,20 @@ func c19YAML(r *wk.Rand, objs []c19Obj) string {
 				fmt.Fprintf(&sb, "                                id: %s\n", p.extraID)
 			}
 			if r.Bool() {
-				fmt.Fprintf(&sb, "                            display:\n                                name: \"N %s\"\n                                description: some text\n", p.name)
+				// descriptions are free text: one line, several lines (literal block, folded paragraphs, escapes), with
+				// characters that mean something in Go source
+				desc := "some text"
+				switch r.Intn(6) {
+				case 0:
+					desc = "|\n                                    first line\n                                    second\n                                    third line */ } // `"
+				case 1:
+					desc = ">\n                                    one paragraph\n\n                                    another paragraph"
+				case 2:
+					desc = "\"first\\nsecond\\n\\tthird \\\" quoted\""
+				case 3:
+					desc = "\"ends with a backslash \\\\\""
+				}
+				fmt.Fprintf(&sb, "                            display:\n                                name: \"N %s\"\n                                description: %s\n", p.name, desc)
 			}
 			if r.Bool() {
 				sb.WriteString("                            required: true\n")
@@ -314,6 +327,11 @@ func runC19(c *wk.Ctx) {
 					c.Count("runs_over_an_existing_longer_output")
 				}
 				cmd := exec.Command(bin, args...)
+				if run >= 2 {
+					// the same program started under another name (installed elsewhere, run through a link)
+					cmd.Args[0] = fmt.Sprintf("/opt/tools-%d/bin/arcaflow-codegen", run)
+					c.Count("runs_under_another_program_name")
+				}
 				cmd.Dir = dir
 				cmd.Env = []string{"PATH=" + os.Getenv("PATH"), "HOME=" + dir}
 				var stderr, stdout bytes.Buffer
